@@ -957,6 +957,19 @@ class Engine:
                           % (m.__name__, call.get("callee_name"), call["at"], type(e).__name__, e))
                 return self.models.default(self, call, k, args, target)
         # 2. inline workspace body
+        if target is not None and target.kind == "Closure" and len(args) == 2:
+            # a closure called through Fn/FnMut/FnOnce resolved to its own body: arguments arrive as one tuple
+            tup = args[1]
+            if tup.op == "agg" and tup.args[0] == "tuple":
+                cargs = list(tup.args[1:])
+            elif tup.op == "unit":
+                cargs = []
+            else:
+                cargs = [tup]
+            fv = args[0]
+            if fv.op in ("ref", "refv", "refo"):
+                fv = deref_value(self, call["state"], fv)
+            return self.invoke_value(call, fv, cargs, tag="#call")
         if target is not None and target.kind in ("Fn", "AssocFn", "Closure") and not target.derived \
                 and target.name not in self.opaque:
             return self.inline(call, target, args, substs)
